@@ -231,11 +231,9 @@ HiddenFromObserver(h) ==
      ELSE \A i \in 1..Len(h.p) : h.p[i].hole = 0 /\ ~h.p[i].combo
 C20_observerHidden(t) == (t.ev = "actorview" /\ t.a.kind \in ObserverKinds /\ HasHand(t.st)) => HiddenFromObserver(H(t.st))
 \* what the non-system observer hides is invisible to the system observer delivered before or after it, and to the engine
-C20_otherActorsIntact(t, gg) == (t.ev = "actorview" /\ t.a.kind = "system") => t.st.hand = gg.engineHand
-C20_engineIntact(t, gg) == (t.ev = "actorsdone") => t.st.hand = gg.engineHand
-C20_viewIsSnapshot(t, gg) ==
-  (t.ev = "actorview") => (t.st.status = gg.engineStatus /\ t.st.gc = gg.lastGcSeen /\ Len(t.st.players) = gg.enginePlayers)
-
+\* (pre = the engine's table as projected in the same callback just before it was handed to the actors)
+C20_otherActorsIntact(t, gg) == (t.ev = "actorview" /\ t.a.kind = "system" /\ Len(t.pre) = 1) => t.st.hand = t.pre[1].hand
+C20_engineIntact(t, gg) == (t.ev = "actorsdone" /\ Len(t.pre) = 1) => t.st.hand = t.pre[1].hand
 \* ---------------------------------------------------------------- C17 (calls routed through the manager)
 MgrLines == {"mgrprobe", "mgrclose", "mgrbystander"}
 C17_bystandersUntouched(t) == (t.by # "") => t.by = "same"
@@ -500,11 +498,11 @@ CheckLine(k, gg) ==
   (t.ev \in MgrLines /\ Clause("C17_notFound", C17_notFound(t), "", k) /\ Clause("C17_closeRemoves", C17_closeRemoves(t), "", k)
                     /\ Clause("C17_bystandersRemain", C17_bystandersRemain(t), "", k) /\ Clause("C17_bystandersUntouched", C17_bystandersUntouched(t), "", k)) \/
   (t.ev \in {"actorview", "actorsdone"} /\ Clause("C20_observerHidden", C20_observerHidden(t), "", k)
-      /\ Clause("C20_otherActorsIntact", C20_otherActorsIntact(t, gg), "", k) /\ Clause("C20_engineIntact", C20_engineIntact(t, gg), "", k)
-      /\ Clause("C20_viewIsSnapshot", C20_viewIsSnapshot(t, gg), "", k)) \/
+      /\ Clause("C20_otherActorsIntact", C20_otherActorsIntact(t, gg), "", k) /\ Clause("C20_engineIntact", C20_engineIntact(t, gg), "", k)) \/
   /\ t.ev \notin MgrLines /\ t.ev \notin {"actorview", "actorsdone"}
   /\ Clause("C17_bystandersUntouched", C17_bystandersUntouched(t), "", k)
   /\ (midOp \/ t.a.note = "background" \/ MemberConforms(t) \/ PrintT(<<"DRIFT", k, t.ev, t.res>>))
+  /\ Clause("C18_botTablePlaysOut", t.ev # "botstall", "", k)
   /\ Clause("C03_noPanic", t.res # "panic" /\ st.status # "projection-panic" /\ t.ev # "crash", kfmid, k)
   /\ ok =>
      /\ Clause("C03_bijection", ((Trusty(t) \/ IsRet(t)) /\ ~midOp) => C03_bijection(st), kfmid, k)
